@@ -24,6 +24,7 @@ let () = register "lim" (fun args -> match args with
       Printf.sprintf "count=%s many=%s slow=%d rc=%s" (string_of_z count) (string_of_z many) (if slow then 1 else 0) (string_of_z rc)
   | ["iter"; sp; cap] ->
       String.concat "," (List.map (fun chk -> if vm_iter_accepts chk (z_of_string sp) (z_of_string cap) then "1" else "0") vm_iter_checks)
+  | ["timeoutns"; t] -> string_of_z (timeout_ns (z_of_string t))
   | ["clock"; i] -> if block_reads_clock (z_of_string i) then "read" else "skip"
   | ["vmreads"; k; c] ->
       let rec nat_of_int i = if i <= 0 then O else S (nat_of_int (i - 1)) in
